@@ -20,6 +20,8 @@ MODULES = [
 STANDINS = [
     {"name": "tz_spellings", "module": "standins.tz_spellings", "props": ["C11"],
      "timeout": {"quick": 900, "thorough": 3600}},
+    {"name": "history", "module": "standins.history", "props": ["C03"],
+     "timeout": {"quick": 900, "thorough": 3600}},
     {"name": "calendars_sweep", "module": "standins.calendars_sweep", "props": ["C15"],
      "timeout": {"quick": 900, "thorough": 7200}},
 ]
